@@ -238,6 +238,12 @@ where
     | .fn op _ part _ => isPlainAgg op part
     | _ => false)
 
+/-- OFFSET / LIMIT on the ordered positions -/
+def cutIdx (q : Query) (idx : List Nat) : List Nat :=
+  match q.limit with
+  | none => idx
+  | some l => (idx.drop (q.offset.getD 0).toNat).take l.toNat
+
 /-- `compile_query` + execution: rows of the SELECT, as (uuid ↦ value) for the selected UUIDs -/
 def evalSelect (base : List Row) (q : Query) (defs : Defs) : List Row :=
   -- WHERE: predicates with the definitions inlined, on the FROM rows
@@ -262,9 +268,7 @@ def evalSelect (base : List Row) (q : Query) (defs : Defs) : List Row :=
   let idx := if q.orderBy.isEmpty then List.range units.length
              else stableSort (fun i j => cmpKeys spec (ordKeys.getD i []) (ordKeys.getD j [])) (List.range units.length)
   -- OFFSET / LIMIT
-  let idx := match q.limit with
-    | none => idx
-    | some l => (idx.drop (q.offset.getD 0).toNat).take l.toNat
+  let idx := cutIdx q idx
   idx.map (fun i => q.select.zip (cols.map (fun c => c.getD i .null)))
 
 def evalSrc (db : DB) : Src → List Row
